@@ -62,6 +62,14 @@ func configure[T any](ctx context.Context, s setupT, def *T, conv func(*T) *Cfg,
 		SkipInitialVerification: s.Skip, DelayInitialVerification: s.Delay,
 		CallGlobalCallbacksAfterVerificationEnabled: s.Suppress,
 	}
+	// a share of the setups leaves the global handlers out: what happens is then
+	// observed through View, registered callbacks and return values only
+	if s.NoNew {
+		p.OnNewConfig = nil
+	}
+	if s.NoErr {
+		p.OnWatchedError = nil
+	}
 	d, err := p.Config(ctx, def, srcs...)
 	if err != nil {
 		return nil, err
